@@ -168,10 +168,17 @@ func (f *DB) Reload(path string, validationKey []byte, reloadTimeout time.Durati
 	var destroyNewDbi bool
 	var err error
 
+	// The reload goroutine works on f.dbi until dbi.Reload returns, which can be long after a
+	// timeout: hold a reference so that the backend is not closed under it.
+	f.l.Lock()
+	f.refCount++
+	f.l.Unlock()
+
 	// reload goroutine
 	go func() {
 		var localDBI DBI
 		localDBI, err = f.dbi.Reload(path)
+		f.unref()
 		m.Lock()
 		defer m.Unlock()
 		if localDBI != nil && destroyNewDbi && localDBI != f.dbi {
@@ -299,12 +306,17 @@ func (r *DataReader) ForEach(key []byte, f func(value []byte) error) (err error)
 // Close close a reader. This puts back a context in the pool
 func (r *DataReader) Close() {
 	r.db.dbi.FreeContext(r.context)
-	r.db.l.Lock()
-	defer r.db.l.Unlock()
-	r.db.refCount--
-	if r.db.destroyable && r.db.refCount == 0 {
+	r.db.unref()
+}
+
+// unref drops one reference; the last reference to a destroyed DB closes it.
+func (f *DB) unref() {
+	f.l.Lock()
+	defer f.l.Unlock()
+	f.refCount--
+	if f.destroyable && f.refCount == 0 {
 		glog.Infof("refcount == 0 && destroyable: Closing DB")
-		r.db.dbi.Close()
+		f.dbi.Close()
 	}
 }
 
